@@ -41,6 +41,11 @@ func (d *Pegnetd) GradeS(ctx context.Context, block *factom.EBlock) (graderStake
 		for i := range entry.ExtIDs {
 			extids[i] = entry.ExtIDs[i]
 		}
+		// An entry without the external ids of a staking record cannot be one:
+		// skip it (anyone can write such an entry to the chain).
+		if len(extids) < 2 {
+			continue
+		}
 		// allow only top 100 stake holders submit prices
 		stakerRCD := extids[1]
 		if d.Pegnet.IsIncludedTopPEGAddress(stakerRCD) {
